@@ -496,6 +496,7 @@ impl Inner {
                 frame.is_over_size() as i64,
             ];
             v.extend(self.verif_disp(id));
+            v.push(frame.pseudo().method.is_none() as i64);
             v
         });
 
